@@ -88,6 +88,14 @@ def _example_case(arg):
             (cwd / "there").mkdir()
             (cwd / "there" / "other.txt").write_text("keep me")
             args, dest = ["--destination", "there"], cwd / "there"
+        elif variant == "explicit_stale":
+            # the destination already holds (valid, but different) cards from an earlier study: the command
+            # documents itself as generating the example cards there
+            (cwd / "there").mkdir()
+            th_old, op_old = _tiny_cards(np.random.default_rng([seed, 49, 77]), 7)
+            (cwd / "there" / "theory.yaml").write_text(yaml.safe_dump(th_old), encoding="utf-8")
+            (cwd / "there" / "operator.yaml").write_text(yaml.safe_dump(op_old), encoding="utf-8")
+            args, dest = ["--destination", "there"], cwd / "there"
         elif variant == "explicit_nested":
             args, dest = ["-d", "a/b/c"], cwd / "a" / "b" / "c"
         else:  # absolute
@@ -382,7 +390,7 @@ def run(ck):
         ck.inconclusive("console script does not call ekobox.cli")
         return
     ck.hit("worktree_sources_used")
-    items = [("example", ck.seed, v) for v in ("default_absent", "default_present", "explicit_absent", "explicit_present", "explicit_nested", "explicit_absolute")]
+    items = [("example", ck.seed, v) for v in ("default_absent", "default_present", "explicit_absent", "explicit_present", "explicit_stale", "explicit_nested", "explicit_absolute")]
     ncards = ck.n(1, 7)
     j = 0
     for c in range(ncards):
